@@ -1,4 +1,6 @@
 import EpyVerif.Model.UF
+import EpyVerif.Model.Perc
+import EpyVerif.Model.Swap
 /-! Line-protocol driver for the percolation models (C13; C14/C18 commands below), at Float. -/
 open UF
 
@@ -63,5 +65,28 @@ def main : IO Unit := do
         acc.push { c := r.1, gcc := r.2.1, ncomp := r.2.2, edges := s.edges ++ newEdges, occN := occN }) #[{ c := fun _ => unocc, gcc := 0, ncomp := 0 }]
       for (j, k) in sched do IO.println (sampleLine n sp[j]! states[k]!)
       IO.println "END"
+    | "PERC" :: t :: rest =>
+      -- Percolate.percolate: occ = int(len(es) * T)
+      let es := rest.map (fun s => match s.splitOn "-" with | [a, b] => (a.toNat!, b.toNat!) | _ => (0, 0))
+      let T := parseF t
+      let occ := (Float.ofNat es.length * T).floor.toUInt64.toNat
+      let r := Perc.split es occ
+      IO.println s!"OCC {occ} KEPT {canonEdges r.1} UNOCC {canonEdges r.2}"
+    | "SHUF" :: nn :: f :: rest =>
+      -- ShuffleK: replay the accepted swaps, re-checking the guards; EDGES before '|' then swaps a,b,c,d
+      let parts := (" ".intercalate rest).splitOn "|"
+      let es := ((parts[0]!.splitOn " ").filter (· ≠ "")).map (fun s => match s.splitOn "-" with | [a, b] => (a.toInt!, b.toInt!) | _ => (0, 0))
+      let sw := (((parts[1]?.getD "").splitOn " ").filter (· ≠ "")).map (fun s => match s.splitOn "," with | [a, b, c, d] => (a.toInt!, b.toInt!, c.toInt!, d.toInt!) | _ => (0, 0, 0, 0))
+      let nodes : List Int := (List.range nn.toNat!).map (fun (i : Nat) => Int.ofNat i)
+      let g0 : Shuffle.G := { ns := nodes, adj := fun x y => es.any (fun e => (e.1 == x && e.2 == y) || (e.1 == y && e.2 == x)) }
+      let mut g := g0
+      let mut bad := false
+      for (a, b, c, d) in sw do
+        if !Shuffle.guardOK g a b c d then bad := true
+        g := Shuffle.swap g a b c d
+      let degs := nodes.map (Shuffle.deg g)
+      let edges := (nodes.flatMap (fun x => (nodes.filter (fun y => x ≤ y && g.adj x y)).map (fun y => (x, y))))
+      let imax := (Float.ofNat es.length * parseF f).floor.toUInt64.toNat
+      IO.println s!"FINAL guards={if bad then "FAIL" else "ok"} deg={degs} edges={edges} nswaps={sw.length} imax={imax}"
     | _ => pure ()
     line ← stdin.getLine
